@@ -834,7 +834,7 @@ func TestC15OperatorFile(t *testing.T) {
 		if strings.Contains(file, "%s") {
 			file = fmt.Sprintf(file, login)
 		}
-		ops := rapid.SliceOfN(rapid.SampledFrom([]string{"delete", "create-again", "password", "edit", "rename", "restart"}), 1, 5).Draw(rt, "ops")
+		ops := rapid.SliceOfN(rapid.SampledFrom([]string{"delete", "create-again", "create-duplicate", "password", "edit", "rename", "restart"}), 1, 5).Draw(rt, "ops")
 		old := hlsim.AccountSpec{Login: login, Name: "Original", Password: "oldpw", Access: hlref.AccessOf(hlref.PrivDownloadFile)}
 		var done []string
 		inWorld(rt, hlsim.Options{Accounts: []hlsim.AccountSpec{acct("admin", "Admin", "adminpw", allAccess), old}, Agreement: "a"}, func(rt *rapid.T, w *hlsim.World) {
@@ -890,6 +890,14 @@ func TestC15OperatorFile(t *testing.T) {
 					}
 					s.mustReply(s.admin.Request(hlref.TranDeleteUser, hlref.F(hlref.FUserLogin, hlref.Obfuscate([]byte(cur)))), "delete-user")
 					delete(s.model, cur)
+				case "create-duplicate":
+					// a new-user request for the login the account already has: refused, and nothing about the account changes
+					if a == nil {
+						continue
+					}
+					if r := s.admin.Request(hlref.TranNewUser, hlref.F(hlref.FUserLogin, hlref.Obfuscate([]byte(cur))), sfld(hlref.FUserName, "Impostor"), hlref.F(hlref.FUserPassword, hlref.Obfuscate([]byte("newpw"))), hlref.F(hlref.FUserAccess, make([]byte, 8))); r == nil || r.Err == 0 {
+						rt.Fatalf("account %q stored by the operator in %q, after [%s]: a new-user request for the same login was not refused (%s)", login, file, strings.Join(done, ", "), replySummary(r))
+					}
 				case "create-again":
 					// after a deletion the login is given to a new account
 					if a != nil {
